@@ -36,7 +36,7 @@ var inRoutes = []struct {
 
 func inDSL(windows []win, worker int) string {
 	var b strings.Builder
-	b.WriteString(listenBlock(worker))
+	b.WriteString(listenBlock())
 	b.WriteString(secretsBlock(windows, -1, worker))
 	b.WriteString("/in/std {\n")
 	for i := range windows {
